@@ -120,4 +120,7 @@ pub fn run(rc: &mut RunCtx) {
     rc.run_pt(STAGES[0], rc.pick(6_000, 300_000), (96, 400));
     rc.require_label("subsets", "all_subsets", 200_000);
     rc.require_label("subsets", "depth3plus", 300_000);
+    if !rc.quick() {
+        rc.run_fuzz(Some(STAGES[0]), 250);
+    }
 }
